@@ -16,7 +16,17 @@ def main():
     ap.add_argument('prop', nargs='?')
     ap.add_argument('--tier', default=os.environ.get('VERIF_TIER', 'quick'))
     ap.add_argument('--replay')
+    ap.add_argument('--selfcheck', action='store_true')
     a = ap.parse_args()
+    if a.selfcheck:
+        import z3
+        from pyvc.loader import Repo
+        r = Repo()
+        r.func('propka.vector_algebra.rotate_vector_around_an_axis')
+        s = z3.Solver(); x = z3.Real('x'); s.add(x * x == 2)
+        assert str(s.check()) == 'sat'
+        print('selfcheck ok: z3', z3.get_version_string())
+        return 0
     if a.replay:
         from pyvc.prop import replay_file
         return replay_file(a.replay)
